@@ -34,6 +34,7 @@ TRANSPARENT = {
     "std::option::Option::unwrap": (0, (("f", 0),)),
     "std::option::Option::expect": (0, (("f", 0),)),
     "std::option::Option::as_ref": (0, ()),
+    "std::result::Result::as_ref": (0, ()),
     "std::option::Option::as_mut": (0, ()),
     "std::convert::Into::into": (0, ()),
     "<T as std::convert::Into<U>>::into": (0, ()),
